@@ -13,6 +13,7 @@
 //   O <sizeof lane> <off dq_state> <off dq_items_tail> <off dq_items_head>
 //   R <round> <W> <nthreads> <items submitted> <items ran> <initial dq_state> <final dq_state> <idle> <overlap errors>
 //     <order errors> <sync-return errors> <max readers seen together> <scenario>
+//   END <rounds done> <events dumped>   (last line: absent or inconsistent = truncated output)
 //   E ... (dv_record.h format; obj = round; line = source line + 100000 * file id: 1 queue.c, 2 inline_internal.h, 3 apply.c)
 // harness-level events: DVU_CALLOUT_BEGIN / DVU_CALLOUT_END obj=round a=ticket b=kind (0 reader, 1 barrier, 2 apply iteration),
 //   DVU_CALL / DVU_RET obj=round a=api b=ticket around every submission.
@@ -141,15 +142,19 @@ static uint64_t init_state_of(dispatch_lane_t dl) {
 	return DISPATCH_QUEUE_STATE_INIT_VALUE(dl->dq_width) | (*(volatile uint64_t *)&dl->dq_state & DISPATCH_QUEUE_ROLE_MASK);
 }
 static int wait_idle(dispatch_lane_t dl, int total) {
-	int last_ran = -1, still = 0;
-	for (int w = 0; w < 400000; w++) {
-		uint64_t st = *(volatile uint64_t *)&dl->dq_state;
-		if (atomic_load(&ran) >= total && st == init_state_of(dl) && dl->dq_items_tail == NULL) return 1;
-		if (atomic_load(&ran) != last_ran) { last_ran = atomic_load(&ran); still = 0; }
-		else if (++still > 60000) return 0;    // nothing ran for 3 s: stuck
+	// progress-based: gives up only when neither the run counter nor dq_state nor the list tail moved for 20 s
+	int last_ran = -1; uint64_t last_st = 0; void *last_tail = NULL; struct timespec t0, t1; clock_gettime(CLOCK_MONOTONIC, &t0);
+	for (;;) {
+		uint64_t st = *(volatile uint64_t *)&dl->dq_state; void *tl = (void *)dl->dq_items_tail; int rn = atomic_load(&ran);
+		if (rn >= total && st == init_state_of(dl) && tl == NULL) return 1;
+		if (rn != last_ran || st != last_st || tl != last_tail) { last_ran = rn; last_st = st; last_tail = tl; clock_gettime(CLOCK_MONOTONIC, &t0); }
+		else { clock_gettime(CLOCK_MONOTONIC, &t1); if (t1.tv_sec - t0.tv_sec >= 20) return 0; }
 		usleep(50);
 	}
-	return 0;
+}
+static void end_line(int rounds_done) {     // lets the checker see a truncated output
+	size_t n = 0; pthread_mutex_lock(&dv_mu); for (dv_thr_t *t = dv_threads; t; t = t->next) n += t->n; pthread_mutex_unlock(&dv_mu);
+	printf("END %d %zu\n", rounds_done, n);
 }
 
 // fixed corpus: the width-field overflow found with the model (fixed by /repo commit "fix: sync readers over-committing ...")
@@ -182,16 +187,17 @@ static void *watchdog(void *a) { (void)a;
 	for (;;) {
 		sleep(1);
 		if (!atomic_load(&wd_on)) { still = 0; last = -1; continue; }
-		int now = atomic_load(&ran) * 7 + atomic_load(&next_ticket) * 3 + cur_round * 1000003;
+		int now = atomic_load(&ran) * 7 + atomic_load(&next_ticket) * 3 + cur_round * 1000003 +
+				(int)((*(volatile uint64_t *)&wd_dl->dq_state >> 31) * 2654435761u);   // any progress: items, submissions, the word
 		if (now != last) { last = now; still = 0; continue; }
-		if (++still < 25) continue;
+		if (++still < 40) continue;       // 40 s without any progress
 		atomic_store(&dv_enabled, 0);
 		int total = atomic_load(&next_ticket), nran = 0, bad = 0;
 		for (int k = 0; k < total; k++) { int x = atomic_load(&items[k].runs); nran += x; if (x != 1) bad++; }
 		printf("R %d %d %d %d %d %" PRIu64 " %" PRIu64 " %d %d %d %d %d %s\n", cur_round, (int)wd_dl->dq_width, wd_n, total, nran, wd_st0,
 				*(volatile uint64_t *)&wd_dl->dq_state, 0, atomic_load(&overlap_err), bad, atomic_load(&syncret_err),
 				atomic_load(&maxreaders), wd_scn);
-		dv_dump(stdout); fflush(stdout); _exit(0);
+		dv_dump(stdout); end_line(cur_round + 1); fflush(stdout); _exit(0);
 	}
 	return NULL;
 }
@@ -210,6 +216,7 @@ int main(int argc, char **argv) {
 	wd_scn = scn; { pthread_t wt; pthread_create(&wt, NULL, watchdog, NULL); }
 	uint64_t r = seed * 6364136223846793005ull + 1442695040888963407ull;
 	static const long WIDTHS[] = { 0, 2, 3, 4, 8, 2, 0, 5 };
+	int rounds_done = 0;
 	for (int i = 0; i < rounds; i++) {
 		r = r * 6364136223846793005ull + 1442695040888963407ull;
 		int overflow = !strcmp(scn, "overflow");
@@ -255,10 +262,11 @@ int main(int argc, char **argv) {
 		int nran = 0, bad = 0; for (int k = 0; k < total; k++) { int x = atomic_load(&items[k].runs); nran += x; if (x != 1) bad++; }
 		printf("R %d %d %d %d %d %" PRIu64 " %" PRIu64 " %d %d %d %d %d %s\n", i, (int)dl->dq_width, n, total, nran, st0, st1, idle,
 				atomic_load(&overlap_err), bad, atomic_load(&syncret_err), atomic_load(&maxreaders), scn);
-		fflush(stdout);
+		fflush(stdout); rounds_done = i + 1;
 		if (!idle) break;
 	}
 	atomic_store(&dv_enabled, 0);
 	dv_dump(stdout);
+	end_line(rounds_done);
 	return 0;
 }
